@@ -180,11 +180,27 @@ pub struct SeqCase {
     /// the second preparation is first attempted with its `fault`-th environment call failing, then repeated
     #[serde(default)]
     pub fault: Option<usize>,
+    /// with `fault`: the failed second preparation is NOT repeated; the application goes back to the first modulation
+    /// (a third preparation, same operation as the first), which is what is judged
+    #[serde(default)]
+    pub abandon: bool,
 }
 
 /// (sf, bw code, ldro) as the chip holds them; None when a step of the sequence was refused / failed.
 fn run_seq(chip: &str, steps: &[((usize, usize), u8, u8)], crc_off: bool) -> Result<Option<(u8, u8, bool)>, String> {
     run_seq_f(chip, steps, crc_off, None).map(|r| r.map(|x| x.0))
+}
+
+/// steps X, Y, X' on one driver instance: Y is attempted once with its `k`-th environment call failing and not repeated.
+fn run_seq_abandon(chip: &str, steps: &[((usize, usize), u8, u8); 3], crc_off: bool, k: usize) -> Result<Option<(u8, u8, bool)>, String> {
+    ABANDON.with(|a| a.set(true));
+    let r = run_seq_f(chip, steps, crc_off, Some(k)).map(|r| r.map(|x| x.0));
+    ABANDON.with(|a| a.set(false));
+    r
+}
+
+thread_local! {
+    static ABANDON: std::cell::Cell<bool> = const { std::cell::Cell::new(false) };
 }
 
 /// As `run_seq`; with `fault` the last preparation is attempted once with that environment call failing and then
@@ -209,7 +225,24 @@ fn run_seq_f(chip: &str, steps: &[((usize, usize), u8, u8)], crc_off: bool, faul
                     let mut txp = l.create_tx_packet_params(8, false, !crc_off, crc_off, &mp).ok()?;
                     let rxp = l.create_rx_packet_params(8, false, 64, !crc_off, true, &mp).ok()?;
                     let mut buf = [0u8; 64];
-                    if si + 1 == nsteps
+                    let abandon = ABANDON.with(|a| a.get());
+                    if abandon && si + 2 == nsteps && let Some(k) = fault {
+                        // the one and only attempt of this step fails; the application moves on
+                        let p0 = e2.0.borrow().pos;
+                        e2.0.borrow_mut().fault_at = Some(p0 + k);
+                        let _ = match op {
+                            0 => drive(l.prepare_for_tx(&mp, &mut txp, 14, &payload)),
+                            1 => drive(l.prepare_for_rx(RxMode::Single(10), &mp, &rxp)),
+                            2 => drive(l.prepare_for_rx(RxMode::Continuous, &mp, &rxp)),
+                            4 => drive(l.listen(868_100_000, BWS[bw])),
+                            _ => drive(l.prepare_for_cad(&mp)),
+                        };
+                        used.set(e2.0.borrow().pos - p0);
+                        e2.0.borrow_mut().fault_at = None;
+                        continue;
+                    }
+                    if !abandon
+                        && si + 1 == nsteps
                         && let Some(k) = fault
                     {
                         // first attempt with one failing environment call; whatever it returns, the application retries
@@ -219,6 +252,7 @@ fn run_seq_f(chip: &str, steps: &[((usize, usize), u8, u8)], crc_off: bool, faul
                             0 => drive(l.prepare_for_tx(&mp, &mut txp, 14, &payload)),
                             1 => drive(l.prepare_for_rx(RxMode::Single(10), &mp, &rxp)),
                             2 => drive(l.prepare_for_rx(RxMode::Continuous, &mp, &rxp)),
+                            4 => drive(l.listen(868_100_000, BWS[bw])),
                             _ => drive(l.prepare_for_cad(&mp)),
                         };
                         used.set(e2.0.borrow().pos - p0);
@@ -228,6 +262,7 @@ fn run_seq_f(chip: &str, steps: &[((usize, usize), u8, u8)], crc_off: bool, faul
                         0 => drive(l.prepare_for_tx(&mp, &mut txp, 14, &payload))?.ok()?,
                         1 => drive(l.prepare_for_rx(RxMode::Single(10), &mp, &rxp))?.ok()?,
                         2 => drive(l.prepare_for_rx(RxMode::Continuous, &mp, &rxp))?.ok()?,
+                        4 => drive(l.listen(868_100_000, BWS[bw]))?.ok()?,
                         _ => drive(l.prepare_for_cad(&mp))?.ok()?,
                     }
                     match (middle, op) {
@@ -293,6 +328,22 @@ pub fn eval_seq(c: &SeqCase) -> Vec<(String, String)> {
                 }
             }
             Ok(None) => vec![],
+        };
+    }
+    if c.abandon && let Some(k) = c.fault {
+        let tag = format!("{}|sequence-with-an-abandoned-attempt", c.chip);
+        let seq = run_seq_abandon(&c.chip, &[(c.first, c.op1, c.middle), (c.second, c.op2, 0), (c.first, c.op1, 0)], c.crc_off, k);
+        let alone = run_seq(&c.chip, &[(c.first, c.op1, 0)], c.crc_off);
+        return match (seq, alone) {
+            (Err(p), _) | (_, Err(p)) => vec![(format!("C15|{tag}|panic|{}", panic_site(&p)), p)],
+            (Ok(Some(a)), Ok(Some(b))) if a != b => vec![(
+                format!("C15|{tag}|chip-modulation-differs-from-fresh-driver|{}", if a.2 != b.2 { "ldro" } else { "spreading-factor-or-bandwidth" }),
+                format!(
+                    "op{} SF{}/{} Hz (middle {}), then op{} SF{}/{} Hz failing at environment call {k} and given up, then the first preparation again: the chip holds (SF, BW code, LDRO) = {a:?}; a fresh driver programs {b:?}",
+                    c.op1, SFS[c.first.0].factor(), BWS[c.first.1].hz(), c.middle, c.op2, SFS[c.second.0].factor(), BWS[c.second.1].hz()
+                ),
+            )],
+            _ => vec![],
         };
     }
     let tag = format!("{}|sequence{}", c.chip, if c.fault.is_some() { "-with-a-failed-attempt" } else { "" });
@@ -418,7 +469,7 @@ pub fn run(tier: Tier, replay: Option<&str>) {
                                 if crc_off && !(middle == 0 || middle == 4) {
                                     continue;
                                 }
-                                let c = SeqCase { chip: chip.into(), first, op1, middle, second, op2, crc_off, against_rule: false, fault: None };
+                                let c = SeqCase { chip: chip.into(), first, op1, middle, second, op2, crc_off, against_rule: false, fault: None, abandon: false };
                                 let v = eval_seq(&c);
                                 seq_cases += 1;
                                 if matches!(run_seq(chip, &[(first, op1, middle), (second, op2, 0)], crc_off), Ok(Some(_))) {
@@ -449,7 +500,7 @@ pub fn run(tier: Tier, replay: Option<&str>) {
                         _ => 0,
                     };
                     for k in 0..n {
-                        let c = SeqCase { chip: chip.into(), first, op1: 0, middle: 1, second, op2, crc_off: false, against_rule: false, fault: Some(k) };
+                        let c = SeqCase { chip: chip.into(), first, op1: 0, middle: 1, second, op2, crc_off: false, against_rule: false, fault: Some(k), abandon: false };
                         for (sig, what) in eval_seq(&c) {
                             ctx.violation(sig, what, serde_json::to_value(&c).unwrap(), 3);
                         }
@@ -461,6 +512,48 @@ pub fn run(tier: Tier, replay: Option<&str>) {
             }
         }
     }
+    // a preparation with another modulation that fails at one environment call and is given up; the application then
+    // prepares with the first modulation again (on a driver that compares with what it programmed last, the chip must
+    // still end up with it)
+    for chip in ["sx1262", "sx1276", "sx1272"] {
+        for &first in &[(7usize, 7usize), (2, 7), (7, 9)] {
+            for &second in &[(4usize, 7usize), (7, 9), (7, 7), (2, 7)] {
+                if first == second {
+                    continue;
+                }
+                for (op1, op2) in [(0u8, 1u8), (1, 0), (0, 0), (0, 4)] {
+                    for middle in [0u8, 1] {
+                        let steps = [(first, op1, middle), (second, op2, 0u8)];
+                        let n = match run_seq_f(chip, &steps, false, Some(1_000_000)) {
+                            Ok(Some((_, n))) => n,
+                            _ => 0,
+                        };
+                        for k in 0..n {
+                            let c = SeqCase { chip: chip.into(), first, op1, middle, second, op2, crc_off: false, against_rule: false, fault: Some(k), abandon: true };
+                            for (sig, what) in eval_seq(&c) {
+                                ctx.violation(sig, what, serde_json::to_value(&c).unwrap(), 4);
+                            }
+                            seq_cases += 1;
+                            seq_effective += 1;
+                            ctx.tick(1);
+                        }
+                    }
+                }
+            }
+        }
+    }
+    // listen() programs a modulation of its own (SF7 at the given bandwidth): its LDRO bit is the decision's too
+    for chip in ["sx1262", "sx1276", "sx1272"] {
+        let sf7 = SFS.iter().position(|s| s.factor() == 7).unwrap();
+        for bw in 0..10usize {
+            let c = SeqCase { chip: chip.into(), first: (sf7, bw), op1: 4, middle: 0, second: (sf7, bw), op2: 4, crc_off: false, against_rule: true, fault: None, abandon: false };
+            for (sig, what) in eval_seq(&c) {
+                ctx.violation(sig, what, serde_json::to_value(&c).unwrap(), 1);
+            }
+            seq_cases += 1;
+            ctx.tick(1);
+        }
+    }
     // the decision a fresh driver programs is itself the rule's: after every sequence above the chip was compared with
     // a fresh driver, and a fresh driver's LDRO bit with the rule here (through the LoRa front-end, CRC on and off)
     for chip in ["sx1262", "sx1276", "sx1272"] {
@@ -468,7 +561,7 @@ pub fn run(tier: Tier, replay: Option<&str>) {
             for bw in 0..10usize {
                 for op in 0..4u8 {
                     for crc_off in [false, true] {
-                        let c = SeqCase { chip: chip.into(), first: (sf, bw), op1: op, middle: 0, second: (sf, bw), op2: op, crc_off, against_rule: true, fault: None };
+                        let c = SeqCase { chip: chip.into(), first: (sf, bw), op1: op, middle: 0, second: (sf, bw), op2: op, crc_off, against_rule: true, fault: None, abandon: false };
                         for (sig, what) in eval_seq(&c) {
                             ctx.violation(sig, what, serde_json::to_value(&c).unwrap(), 1);
                         }
@@ -487,7 +580,7 @@ pub fn run(tier: Tier, replay: Option<&str>) {
         "sequences_run_to_the_end": seq_effective,
         "evaluations": ctx.evals(),
         "distinct_nontrivial": supported,
-        "rule": "all 8 spreading factors x 10 bandwidths x {airtime calculator, SX1261, SX1262, STM32WL LP/HP, SX1272, SX1276, LR1110}; for every pair the chip accepts: the decision in ModulationParams / BaseBandModulationParams and the LDRO bit actually written on SPI by set_modulation_params (for the register-based SX127x with all 256 prior values of the read-modify-write register) against the exact rational rule 2^SF/BW >= 16.38 ms; for the SX127x additionally the bit left in the chip model's register file after set_modulation_params -> set_packet_params for every combination of header mode, payload CRC and IQ inversion; every pair through the LoRa front-end (prepare_for_tx / rx / cad, CRC on and off): the chip's LDRO bit equals the decision; sequences through the LoRa front-end on one driver instance (SX1262, SX1276, SX1272 chip models): {prepare_for_tx, prepare_for_rx single/continuous, prepare_for_cad} with one modulation, {nothing, operation completed, listen(), reception left running, init() (chip reset), sleep cold / warm, completed then init()}, then a prepare_for_* with a second modulation (the same one included): the chip's SF/BW/LDRO must equal what a fresh driver programs; the same when the second preparation first fails at one of its environment calls (every position) and is repeated; non-trivial = pairs the chip supports",
+        "rule": "all 8 spreading factors x 10 bandwidths x {airtime calculator, SX1261, SX1262, STM32WL LP/HP, SX1272, SX1276, LR1110}; for every pair the chip accepts: the decision in ModulationParams / BaseBandModulationParams and the LDRO bit actually written on SPI by set_modulation_params (for the register-based SX127x with all 256 prior values of the read-modify-write register) against the exact rational rule 2^SF/BW >= 16.38 ms; for the SX127x additionally the bit left in the chip model's register file after set_modulation_params -> set_packet_params for every combination of header mode, payload CRC and IQ inversion; every pair through the LoRa front-end (prepare_for_tx / rx / cad, CRC on and off): the chip's LDRO bit equals the decision; sequences through the LoRa front-end on one driver instance (SX1262, SX1276, SX1272 chip models): {prepare_for_tx, prepare_for_rx single/continuous, prepare_for_cad} with one modulation, {nothing, operation completed, listen(), reception left running, init() (chip reset), sleep cold / warm, completed then init()}, then a prepare_for_* with a second modulation (the same one included): the chip's SF/BW/LDRO must equal what a fresh driver programs; the same when the second preparation first fails at one of its environment calls (every position) and is repeated, and when it fails and is given up and the first preparation is made again; listen() at every bandwidth against the decision for SF7; non-trivial = pairs the chip supports",
         "samples": [serde_json::to_value(Case { chip: "sx1276".into(), sf: 6, bw: 7 }).unwrap(), serde_json::to_value(Case { chip: "sx1262".into(), sf: 7, bw: 6 }).unwrap()],
         "exhaustive": true,
         "pairs_supported": supported,
